@@ -129,7 +129,7 @@ def GObj.fresh (s : LoopSpec) : GObj := ⟨none, s.initDataLen, []⟩
 /-- the initialisation block: `initialise()`, then every entry of `backend.data` is added -/
 def gInitialise (s : LoopSpec) (o : GObj) : GObj :=
   let len := o.dataLen + s.initAppends
-  ⟨some s.initStep, len, (List.range len).map (fun ii => (s.initLabel ii, ii))⟩
+  ⟨some s.initStep, len, (List.range len).map (fun ii => (s.initLabel (ii : Nat), ii))⟩
 
 /-- one loop iteration: `compute_step()`, then the returned state (the last entry of
     `backend.data`) is added under the label of the returned counter -/
